@@ -117,6 +117,7 @@ static u64 survivors_within(G &g, const Cfg &c) {
 static void gen_roundtrip(G &g, bool isal) {
     Cfg c = isal ? any_coded_shape(g.world, true) : any_coded_shape(g.world);
     c.ct = g.world.chance(1, 2) ? 2 : 1;
+    if (g.world.chance(1, 20)) c.ct = 3;   // CHKSUM_MD5: accepted by create, no checksum is computed for it
     if (g.world.chance(1, 10)) c.w = isal ? 8 : 0;
     g.ops.push(create_op(0, c));
     bool free_run = g.world.chance(1, 4);  // fault-free configuration, run separately
